@@ -3,4 +3,4 @@ From DV Require Import Base.Outcome Base.Names C12.Gen C12.Model C12.Digest C12.
 Extraction Language OCaml.
 Extraction "../build/ml/C12/model.ml" c12_signed_data c12_sign_rrset c12_sign_sorted c12_key_tag
   c12_ds_digest c12_label_count c12_wce c12_name_of_wire c12_wire_of_name mk_sigf mk_rr mk_skey
-  c12_rsa_parse c12_rsa_encode c12_key_size c12_sign_zone c12_sign_zone_unsorted c12_sorted_ops.
+  c12_rsa_parse c12_rsa_encode c12_key_size c12_sign_zone c12_sign_zone_unsorted c12_sorted_ops c12_alg_mismatch.
